@@ -110,6 +110,7 @@ def write_evidence(ctx, mod, nviol, extra_assumptions=()):
             "distribution": ctx.dist,
             "disagreements": len(ctx.disagreements),
             "lean_sources_digest": lean.sources_digest(),
+            "leanchecker": st.get("leanchecker", "not run (quick tier)"),
             **ctx.notes,
         },
         "assumptions": list(getattr(mod, "ASSUMPTIONS", [])) + list(extra_assumptions),
@@ -150,7 +151,7 @@ def main(argv=None):
     ctx = Ctx(pid, args.tier, seed)
     known = load_known()
     try:
-        ctx.lean_status = lean.prepare(pid)
+        ctx.lean_status = lean.prepare(pid, thorough=args.tier == "thorough")
         if not ctx.lean_status["driver_ok"]:
             # the executable model itself does not build: if generated tables are the
             # cause this is a broken obligation, otherwise an internal error
